@@ -77,6 +77,7 @@ def run(v, tier, replay):
     res = lib.read_ndjson(of)
     summ = [e for e in res if e["ev"] == "summary"][0]
     v.cov["behaviours_replayed_into_impl"] = summ["behaviours"]
+    v.cov["traces_validated_against_impl"] += summ["behaviours"]
     v.cov["replay_steps"] = summ["steps"]
     v.cov["replay_probes"] = summ["probes"]
     v.cov["evaluations"] += summ["probes"]
